@@ -130,6 +130,8 @@ impl AggregatedMetric {
                         "local drain metric {} underflow: previous value: {}, adding: {}",
                         key, before, v2
                     );
+                    #[cfg(feature = "verif-hooks")]
+                    verif::GAUGE_UNDERFLOWS.fetch_add(1, std::sync::atomic::Ordering::Relaxed);
                     0
                 };
                 debug_assert!(
@@ -1760,5 +1762,18 @@ mod tests {
             Some(Inner::Gauge(v)) => assert_eq!(*v, 0, "underflow must saturate to 0"),
             other => panic!("expected Gauge, got {other:?}"),
         }
+    }
+}
+
+/// Verification hook: process-global observer of clamped gauge underflows.
+#[cfg(feature = "verif-hooks")]
+pub mod verif {
+    use std::sync::atomic::{AtomicU64, Ordering};
+
+    pub(super) static GAUGE_UNDERFLOWS: AtomicU64 = AtomicU64::new(0);
+
+    /// Number of times a gauge add was clamped at zero since process start.
+    pub fn gauge_underflows() -> u64 {
+        GAUGE_UNDERFLOWS.load(Ordering::Relaxed)
     }
 }
